@@ -24,7 +24,8 @@ typedef struct {
   _Atomic uint64_t seen_epoch;
   _Atomic long idle_iters;
   _Atomic int is_mgr;
-  char pad[40];
+  _Atomic int stealing;  // between WSD_STEAL_PRE_CAS and this thread's next event: an entry may have left a queue unannounced
+  char pad[36];
 } thr_t;
 static thr_t g_thr[VP_MAX_THREADS];
 
@@ -118,6 +119,8 @@ static void gviol(const char* prop, const char* key, const char* fmt, ...) {
 }
 
 static void ghost_obs(int point, const void* a, const void* b, int me) {
+  if (point == FV_WSD_STEAL_PRE_CAS) atomic_store(&g_thr[me].stealing, 1);
+  else if (point != FV_CPU_RELAX) atomic_store(&g_thr[me].stealing, 0);
   switch (point) {
     case FV_SWITCH_PRE: {
       vp_gfiber_t* go = gfind(a, 1);
@@ -501,6 +504,97 @@ int vp_ghost_others_idle(void) {
   if (atomic_load(&g_pending_total) != 0) return 0;
   if (fiber_verif_runqueue_total() != 0) return 0;
   return 1;
+}
+
+// For "a yield that returned at once although a fiber was ready": a fiber that is queued on the calling thread's scheduler, whose
+// previous suspension has completed (it could be run right now), while no kernel thread is in the middle of a steal (a stolen entry
+// is announced only after it has left the queue). Returns its identity and queue mark, or NULL.
+const void* vp_ghost_ready_on_my_sched(uint64_t* mark_out) {
+  fiber_manager_t* const mgr = fiber_manager_get();
+  if (!mgr) return NULL;
+  int t;
+  for (t = 0; t < VP_MAX_THREADS; ++t)
+    if (atomic_load(&g_thr[t].stealing)) return NULL;
+  const uintptr_t me = (uintptr_t)mgr->scheduler;
+  uint32_t i;
+  for (i = 0; i < GSIZE; ++i) {
+    vp_gfiber_t* g = &g_tab[i];
+    const uintptr_t k = atomic_load_explicit(&g->key, memory_order_acquire);
+    if (!k || atomic_load(&g->destroyed) || atomic_load(&g->queued_sched) != me) continue;
+    if (atomic_load(&g->pending) <= 0 || atomic_load(&g->running_on) != -1) continue;
+    if (mark_out) *mark_out = atomic_load(&g->queued_mark) ^ ((uint64_t)atomic_load(&g->switches_in) << 40);
+    for (t = 0; t < VP_MAX_THREADS; ++t)
+      if (atomic_load(&g_thr[t].stealing)) return NULL;
+    return (const void*)k;
+  }
+  return NULL;
+}
+long vp_ghost_bypass_bound(void) {
+  const long lim = atomic_load(&g_bypass_limit);
+  return lim ? lim + atomic_load(&g_bypass_slack_per_live) * atomic_load(&g_live_peak) : 0;
+}
+
+// A sleeper that is never resumed: every kernel thread idle (several idle iterations since the last event anywhere), nothing queued or
+// pending, and a fiber still registered as sleeping although the monotonic clock puts the tick base more than 400 ticks (2 s) past
+// its wake tick - on three looks >= 100 ms apart during which the library's tick count did not move either. Idle threads poll the
+// timer every tick, so with nothing else to do the resumption is due within a tick or two; this is "is then resumed" failing.
+void vp_ghost_check_overdue_sleepers(void) {
+  static const void* cand;
+  static uint64_t cand_ticks;
+  static int looks;
+  if (atomic_load(&g_sleepers) <= 0) {
+    looks = 0;
+    return;
+  }
+  const uint64_t e = atomic_load(&g_epoch);
+  int i, mgrs = 0;
+  for (i = 0; i < VP_MAX_THREADS; ++i) {
+    if (!atomic_load(&g_thr[i].is_mgr)) continue;
+    ++mgrs;
+    if (atomic_load(&g_thr[i].seen_epoch) != e || atomic_load(&g_thr[i].idle_iters) < 8) {
+      looks = 0;
+      return;
+    }
+  }
+  if (mgrs < vp_cfg.threads || atomic_load(&g_pending_total) != 0 || fiber_verif_runqueue_total() != 0) {
+    looks = 0;
+    return;
+  }
+  const uint64_t clk = vp_ghost_clock_ticks(vp_now_ns());
+  if (!clk) return;
+  const void* found = NULL;
+  uint64_t wt = 0;
+  uint32_t k;
+  for (k = 0; k < GSIZE; ++k) {
+    vp_gfiber_t* g = &g_tab[k];
+    const uintptr_t key = atomic_load_explicit(&g->key, memory_order_acquire);
+    if (!key || atomic_load(&g->destroyed) || !atomic_load(&g->sleeping)) continue;
+    const uint64_t w = atomic_load(&g->sleep_wake_tick);
+    if (w + 400 < clk) {
+      found = (const void*)key;
+      wt = w;
+      if (found == cand) break;
+    }
+  }
+  const uint64_t ticks = atomic_load(&g_ticks);
+  if (!found) {
+    looks = 0;
+    cand = NULL;
+    return;
+  }
+  if (found == cand && ticks == cand_ticks) {
+    if (++looks >= 3) {
+      gviol("C09", "sleep:never-resumed",
+            "fiber %p is still asleep although its wake tick %llu lies %llu ticks behind the clock, every kernel thread is idle and nothing is queued; the library's tick count stands at %llu",
+            found, (unsigned long long)wt, (unsigned long long)(clk - wt), (unsigned long long)ticks);
+      looks = 0;
+      cand = NULL;
+    }
+  } else {
+    cand = found;
+    cand_ticks = ticks;
+    looks = 1;
+  }
 }
 
 int vp_ghost_quiescent(void) {
